@@ -197,6 +197,10 @@ class Collocator:
             filesets[1], start=start, end=end, max_interval=max_interval,
         ))
 
+        if not matches:
+            self._info("No files of the filesets overlap in time")
+            return
+
         if processes is None:
             processes = 1
 
